@@ -18,16 +18,16 @@ for p in sorted(glob.glob(os.path.join(ROOT, "seeded", "*", "meta.json"))):
     summ = re.sub(r"\s+", " ", m.get("summary") or "")[:170]
     files = ", ".join(f.replace("src/", "") for f in (m.get("files_changed") or []))
     rows.append(f"| {name} | {files} | {summ} | {chk.get('verdict','?')}: {first} | {also or '–'} | {silent or '–'} |")
-text = f"""Two hundred and eighty changes were produced in seven rounds by fresh sub-agents (twenty agents per
-round, two changes per property and round; from round 2 on each agent was told which
+text = f"""Three hundred and nineteen changes were produced in eight rounds by fresh sub-agents (twenty agents per
+round, two changes per property and round — one agent of the last round delivered a single change; from round 2 on each agent was told which
 ideas round 1 had used and asked for different functions, drivers and kinds of mistake), each given
 only the property text and its own scratch worktree of `/repo` — nothing from `/verif`.  Each change
 compiles, passes the 57 existing tests, and comes with a demonstration that fails with it and passes
 without it; all of that was re-confirmed by `tools/seed_eval.py` in a scratch worktree (build with and
 without the guard, suite, demonstration both ways) before the checks were run against it.  They are kept
 under `seeded/<id>/` (`patch.diff`, the demonstration, `meta.json` with what was run and the verdicts;
-ids `Cxx-1/2` = round 1, `Cxx-3/4` = round 2, `Cxx-5/6` = round 3, `Cxx-7/8` = round 4, `Cxx-9/10` = round 5, `Cxx-11/12` = round 6, `Cxx-13/14` = round 7; the agents of
-rounds 3 to 7 were additionally asked
+ids `Cxx-1/2` = round 1, `Cxx-3/4` = round 2, `Cxx-5/6` = round 3, `Cxx-7/8` = round 4, `Cxx-9/10` = round 5, `Cxx-11/12` = round 6, `Cxx-13/14` = round 7, `Cxx-15/16` = round 8; the agents of
+rounds 3 to 8 were additionally asked
 for changes that would slip past a differential test driven by mostly well-formed random sequences
 and a simple device model: single feature combinations or transports, behaviour after an error
 path, numeric boundaries, interleavings of two queues or of blocking and non-blocking calls, unusual
@@ -169,8 +169,26 @@ case by `check`, 8 `no-failing-input-found`, 4 missed, 1 out of reach:
 | C07-13 block constructor reads the capacity after creating its queue; on a short configuration space the queue memory is released while still registered | — | not strengthened: the device is not live (no `DRIVER_OK` yet) and the transport, dropped with the failed constructor, resets it; reported without a failing input (constructor transcript differs) |
 | C03-14 capacity clause of `add` lost in builds without the `alloc` feature | — | out of reach: the harness builds the crate with its default features (§7) |
 
+Round 8 (same brief as round 7 with its ideas listed as taken, and about 25 minutes per agent; 39
+changes), first pass: 30 concrete, 5 `no-failing-input-found`, 4 missed.  Several agents independently
+chose the same places (the `+= 1` on a ring index, `can_pop` with `<`, the early `?` in
+`OwningQueue::poll`, the swapped areas in `SomeTransport::queue_set`, the early exit of `pcm_xfer`), which is
+itself a sign that the supply of new single-site ideas is thinning; what this round exposed is mostly
+that a stream which already decides a change in one check was not yet part of a neighbouring check:
+
+| missed | why | added |
+|---|---|---|
+| C01-15 `SomeTransport::queue_set` passes the driver and device areas to the MMIO transport in swapped order | known to C02/C04/C10 through the MMIO session stream (`via=some` rows); C01 did not run that stream | C01 runs it as well: the ring the device is told about is the ring the chain is published in |
+| C02-16 block driver passes `event_idx` / `indirect` to `VirtQueue::new` in swapped order | C01 kept the indirect-descriptor oracles of the construction stream, C02 did not | C02 keeps them too (a device that did not negotiate indirect descriptors parses the entry as a plain descriptor) |
+| C03-16 `OwningQueue::poll` returns early on a handler error and never re-adds the consumed buffer | C03 drove `VirtQueue` only; the wrapper was C17/C18/C19's | C03 runs the owning-queue stream (handlers returning Some/None/Err): after every poll the device sees exactly the consumed buffer again |
+| C08-16 GPU cursor queue created with `SUPPORTED_FEATURES.contains(EVENT_IDX)` (always true) | C05 and C20 saw it in the notification matrix (`gpu.move_cursor`, second command not announced); C08 did not run the matrix | C08 runs its flag-mode rows: where EVENT_IDX was not negotiated the decision to notify must follow `used.flags` |
+| C04-15 / C09-15 blocking `pcm_xfer` returns at the first error status with later chunks still posted (model only: `shared=6`) | the "buffers still shared" oracle of the sound stream was C20's only | C04 and C09 keep it (the status words of those chunks live in the returning call's frame) |
+| C04-16 `pop_pending_event` copies the event out of its buffer before `pop_used` (bouncing platform; model only in C04) | C04 kept only ledger failures of the event streams | C04 also keeps "delivered … but the device wrote …" |
+| C14-16 undefined status bytes (4..255) mapped to `NotReady` (model only) | the oracle accepted any error for a status without a defined meaning | an undefined status is an error other than `NotReady` (the completion has been consumed; `NotReady` tells the caller to poll again) |
+| C11-15 the alignment of a window is checked on its physical address before mapping instead of on the mapped address | — | not strengthened: the recording platform maps MMIO page-congruently (virtual ≡ physical mod 4096), so the two checks agree on every input; the changed order of mapping requests and refusals differs from the model's transcript, hence `no-failing-input-found`.  A platform that skews MMIO mappings would need a skew parameter in the Lean model of `PciTransport::new` (`new_common_aligned` is stated over the address the model is given) — not built |
+
 Check bugs that surfaced on the way: §9, 13–22.  With the exceptions named in the tables (C02-12,
-C07-11, C07-13, C03-14) all 280 are reported with a concrete replay by the check of their own property.
+C07-11, C07-13, C03-14, C11-15) all 319 are reported with a concrete replay by the check of their own property.
 After the last strengthening every seed of rounds 1–6 was run once more against the final checks
 (`out/reeval2_*.log`): the same verdicts, except for two C05 seeds whose oracle had been switched off by
 a harness bug introduced in round 6 (§9.21, repaired) and C20-3, which no longer applies (it edits lines
